@@ -85,17 +85,14 @@ Qed.
 Lemma step_expect k s : step s (expect k s).
 Proof. unfold expect. destruct (cur_is s k); [apply step_bump|apply step_error]. Qed.
 
-Lemma step_version_colons fuel : forall s, step s (version_colons fuel s).
+Lemma step_version_run fuel : forall s, step s (version_run fuel s).
 Proof.
-  induction fuel as [|f IH]; intros s; cbn [version_colons]; destruct (cur_is s COLON); try apply step_refl.
+  induction fuel as [|f IH]; intros s; cbn [version_run]; destruct (cur_is_vtok s); try apply step_refl.
   - apply step_out_of_fuel.
-  - eapply step_trans; [apply step_bump|]. eapply step_trans; [apply step_expect|apply IH].
+  - eapply step_trans; [apply step_bump|apply IH].
 Qed.
 Lemma step_version_text s : step s (version_text s).
-Proof.
-  unfold version_text. destruct (cur_is s IDENT); [|apply step_error]. cbv zeta.
-  eapply step_trans; [apply step_bump|apply step_version_colons].
-Qed.
+Proof. unfold version_text. destruct (cur_is_vtok s); [apply step_version_run|apply step_error]. Qed.
 
 Opaque bump skip_ws error expect in_node out_of_fuel version_text.
 
@@ -369,20 +366,21 @@ Lemma goodlt_in_node k body s : goodlt (reset s) (body (reset s)) -> goodlt s (i
 Proof. intros [O L]. split; [unfold ok; rewrite flag_in_node; exact O|rewrite ltoks_in_node; exact L]. Qed.
 
 Transparent version_text.
-Lemma good_version_colons fuel : forall s, ok s -> ltoks s < fuel -> good s (version_colons fuel s).
+Lemma cur_is_vtok_some s : cur_is_vtok s = true -> current s <> None.
 Proof.
-  induction fuel as [|f IH]; intros s Hok Hl; [lia|]. cbn [version_colons].
-  destruct (cur_is s COLON) eqn:E; [|apply good_refl; exact Hok].
-  pose proof (goodlt_bump s Hok (cur_is_some _ _ E)) as [Ob Lb].
-  pose proof (good_expect IDENT (bump s) Ob) as [Oe Le].
-  destruct (IH _ Oe) as [A B]; [lia|]. split; [exact A|lia].
+  unfold cur_is_vtok. intros H. apply orb_true_iff in H. destruct H as [H|H]; eapply cur_is_some; exact H.
+Qed.
+Lemma good_version_run fuel : forall s, ok s -> ltoks s < fuel -> good s (version_run fuel s).
+Proof.
+  induction fuel as [|f IH]; intros s Hok Hl; [lia|]. cbn [version_run].
+  destruct (cur_is_vtok s) eqn:E; [|apply good_refl; exact Hok].
+  pose proof (goodlt_bump s Hok (cur_is_vtok_some _ E)) as [Ob Lb].
+  destruct (IH _ Ob) as [A B]; [lia|]. split; [exact A|lia].
 Qed.
 Lemma good_version_text s : ok s -> good s (version_text s).
 Proof.
-  intros H. unfold version_text. destruct (cur_is s IDENT) eqn:E; [|apply good_error; exact H]. cbv zeta.
-  pose proof (goodlt_bump s H (cur_is_some _ _ E)) as [Ob Lb].
-  destruct (good_version_colons (loop_fuel (bump s)) (bump s) Ob) as [A B]; [unfold loop_fuel, ltoks; lia|].
-  split; [exact A|lia].
+  intros H. unfold version_text. destruct (cur_is_vtok s) eqn:E; [|apply good_error; exact H].
+  apply good_version_run; [exact H|unfold loop_fuel, ltoks; lia].
 Qed.
 Opaque version_text.
 
@@ -790,15 +788,14 @@ Proof.
   intros t Ht. cbv zeta. apply keeps_profile_loop; [lia|]. apply keeps_bump. exact Ht.
 Qed.
 
-Lemma keeps_version_colons k fuel : 1 <= k -> keeps k (version_colons fuel).
+Lemma keeps_version_run k fuel : keeps k (version_run fuel).
 Proof.
-  intros Hk. induction fuel as [|f IH]; intros s H; cbn [version_colons]; destruct (cur_is s COLON); try exact H.
-  apply IH. apply keeps_expect; [lia|]. apply keeps_bump. exact H.
+  induction fuel as [|f IH]; intros s H; cbn [version_run]; destruct (cur_is_vtok s); try exact H.
+  apply IH. apply keeps_bump. exact H.
 Qed.
 Lemma keeps_version_text k : 1 <= k -> keeps k version_text.
 Proof.
-  intros Hk s H. unfold version_text. destruct (cur_is s IDENT); [|apply keeps_error; [lia|exact H]]. cbv zeta.
-  apply keeps_version_colons; [exact Hk|]. apply keeps_bump. exact H.
+  intros Hk s H. unfold version_text. destruct (cur_is_vtok s); [apply keeps_version_run; exact H|apply keeps_error; [lia|exact H]].
 Qed.
 Lemma keeps_parse_relation k : 3 <= k -> keeps k parse_relation.
 Proof.
